@@ -40,6 +40,8 @@ def write_table(path, storage, table):
             csv.writer(target).writerows(table)
     elif storage == "ods":
         odslib.write_ods(path, odslib.content_xml([odslib.plain_sheet(table)]))
+    elif storage == "ods-runs":
+        odslib.write_ods(path, odslib.content_xml([odslib.compact_sheet(table)]))
     else:
         import xlsxwriter
         workbook = xlsxwriter.Workbook(path)
@@ -107,13 +109,16 @@ def _data_job(job):
     concrete = []
     for number, row in enumerate(table["rows"], 1):
         cells = [ok_cell(kinds[i], row["v"][i]) if row["c"][i] == "ok" else bad_cell(kinds[i], row["v"][i]) for i in range(2)]
-        concrete.append(cells + ["%d" % number])
+        # two optional columns at the end, empty in every second row (the first row has them, so that the sheet keeps its width)
+        concrete.append(["%d" % number] + cells + (["n", "n"] if number % 2 else ["", ""]))
     expected_out = entry["fresh"]["out"]
     problems = []
-    for storage, fmt, suffix in (("csv", "delimited", ".csv"), ("ods", "ods", ".ods"), ("xlsx", "excel", ".xlsx")):
+    for storage, fmt, suffix in (("csv", "delimited", ".csv"), ("ods", "ods", ".ods"), ("ods-runs", "ods", ".ods"),
+                                 ("xlsx", "excel", ".xlsx")):
         cid = cutplace.Cid()
         cid_rows = [["D", "Format", fmt]] + ([["D", "Header", str(header)]] if header else []) + [
-            ["F", "f%d" % (i + 1), "", "", "", kinds[i], RULE[kinds[i]]] for i in range(2)] + [["F", "rid"]]
+            ["F", "rid"]] + [["F", "f%d" % (i + 1), "", "", "", kinds[i], RULE[kinds[i]]] for i in range(2)] + [
+            ["F", "note1", "", "X"], ["F", "note2", "", "X"]]
         for number, check in enumerate(vec["checks"], 1):
             if check["t"] == "u":
                 cid_rows.append(["C", "check %d" % number, "IsUnique", ", ".join("f%d" % k for k in check["key"])])
@@ -128,9 +133,12 @@ def _data_job(job):
         try:
             for item in cutplace.rows(cid, path, on_error="yield"):
                 if isinstance(item, Exception):
-                    out.append(["err", item.location.line + 1, item.location.cell + 1, type(item).__name__])
+                    # the model counts cells from 1 and knows nothing of the leading rid column; errors of a check are
+                    # reported for the row (first cell)
+                    cell = item.location.cell if isinstance(item, cutplace.errors.FieldValueError) else item.location.cell + 1
+                    out.append(["err", item.location.line + 1, cell, type(item).__name__])
                 else:
-                    out.append(["row", int(item[-1])])
+                    out.append(["row", int(item[0])])
                     values.append(item)
             closing = "none"
         except cutplace.errors.CheckError:
@@ -200,7 +208,7 @@ def run(tier, report):
         jobs = [(vec, folder, index) for index, vec in enumerate(tables)]
         outcomes = core.parallel_map(_data_job, jobs, chunk=10)
         for (vec, _, index), problems in zip(jobs, outcomes):
-            report.replayed += 3
+            report.replayed += 4
             report.count("data:%d:" % (index % len(TYPE_PAIRS)) + core.json.dumps(vec["hist"][0]["run"]["ds"]), True)
             stored = dict(vec)
             stored["index"] = index
